@@ -108,7 +108,7 @@ func run(ctx context.Context, output io.Writer, input io.Reader, logError func(e
 	}
 
 	if stmt := sb.String(); len(parser.Scan(stmt)) > 0 {
-		sql, err := pql.Compile(stmt)
+		sql, err := pql.Compile(letStatements.String() + stmt)
 		if err != nil {
 			logError(err)
 			return errors.New("one or more statements could not be compiled")
